@@ -3,6 +3,7 @@ package verifdrv
 import (
 	"encoding/json"
 	"fmt"
+	"math/big"
 	"math/rand"
 	"regexp"
 	"strings"
@@ -15,29 +16,57 @@ func init() {
 
 var coloredNum = regexp.MustCompile("(\x1b\\[3[12]m)?( *-?\\d+\\.\\d\\d)(\x1b\\[0m)?")
 
-// checkColours: every printed amount is red when positive, green when negative, uncoloured when zero
-func checkColours(out string) string {
+// checkColours: every printed amount is red when the amount is positive, green when negative, uncoloured
+// when zero - the amount itself (the specification's value), not its printed rounding: 0.004 prints
+// as 0.00 and is still positive.  signs = the specification's figures in print order.
+func checkColours(out string, signs []int) string {
+	k := 0
 	for _, line := range strings.Split(out, "\n") {
 		if !strings.HasPrefix(line, "\t") && !strings.HasPrefix(line, "  ") {
 			continue // date lines and headers
 		}
 		for _, m := range coloredNum.FindAllStringSubmatch(line, -1) {
-			v, ok := parseMilli(m[2])
-			if !ok {
-				continue
+			if k >= len(signs) {
+				return fmt.Sprintf("more amounts printed than the %d the specification predicts (line %q)", len(signs), line)
 			}
 			want := ""
-			if v > 0 {
+			if signs[k] > 0 {
 				want = "\x1b[31m"
-			} else if v < 0 {
+			} else if signs[k] < 0 {
 				want = "\x1b[32m"
 			}
+			k++
 			if m[1] != want || (want != "" && m[3] != "\x1b[0m") || (want == "" && m[3] != "") {
-				return fmt.Sprintf("amount %q in line %q is coloured %q, expected %q", m[2], line, m[1], want)
+				return fmt.Sprintf("amount %q (sign of the true amount: %d) in line %q is coloured %q, expected %q", m[2], signs[k-1], line, m[1], want)
 			}
 		}
 	}
+	if k != len(signs) {
+		return fmt.Sprintf("%d amounts printed, the specification predicts %d", k, len(signs))
+	}
 	return ""
+}
+
+// the specification's figures of a register in print order: per day the foods (quantity, ingredient
+// amounts) and then the totals (positive, negative, sum)
+func regSigns(days []absRegDay, foods, totals bool) []int {
+	var s []int
+	for _, d := range days {
+		if foods {
+			for _, f := range d.Foods {
+				s = append(s, f.Qty)
+				for _, in := range f.Ingr {
+					s = append(s, in[1])
+				}
+			}
+		}
+		if totals {
+			for _, t := range d.Totals {
+				s = append(s, t.Pos, t.Neg, t.Sum)
+			}
+		}
+	}
+	return s
 }
 
 // shortenedOK: s is orig unchanged if it fits in w runes, else prefix + "…" + suffix of orig within w runes
@@ -118,6 +147,12 @@ func presentationReplay(e *env) error {
 			}
 			w.names[i] = n + "Z"
 		}
+		// every fourth case: quantities of a few thousandths (they print as 0.00 or 0.01 but keep their sign)
+		if idx%4 == 1 {
+			w.uqS = []string{"0.004", "0.002", "1.004"}[rng.Intn(3)]
+			f, _ := new(big.Rat).SetString(w.uqS)
+			w.uq, _ = f.Float64()
+		}
 		cc := &concretiser{rng: rng}
 		x := &cmpCtx{e: e, c: c, w: w}
 		x.book = w.bookText(c, cc)
@@ -171,7 +206,7 @@ func presentationReplay(e *env) error {
 						}
 						key := fmt.Sprintf("%s/%v/%s", t.name, shorten, tmode.name)
 						if colour == "on" {
-							if d := checkColours(out); d != "" {
+							if d := checkColours(out, regSigns(c.Reg, tmode.name != "totals-only", tmode.name != "no-totals")); d != "" {
 								x.bad("colour-not-by-sign", site, fmt.Sprintf("%v: %s", args, d))
 							}
 							if p, seen := plainByMode[key]; seen && stripAnsi(out) != p {
